@@ -39,38 +39,48 @@ Fixpoint ser_node (lvl : nat) (n : snode) {struct lvl} : bytes :=
   | S l => concat (map (ser_node l) (somes (sn_ch n)))
   end.
 
+(* the loop that reads [k] children and attaches each to [parent] (level [lvl]) with replace *)
+Fixpoint dec_children (dec : bytes -> option (nat * snode * bytes)) (lvl : nat) (k : nat)
+         (parent : snode) (bs : bytes) {struct k} : option (nat * snode * bytes) :=
+  match k with
+  | O => Some (lvl, parent, bs)
+  | S k' =>
+      match dec bs with
+      | None => None
+      | Some (cl, c, bs') =>
+          if negb (Nat.eqb (S cl) lvl) then None
+          else match sn_replace cl parent c with
+               | Some parent' => dec_children dec lvl k' parent' bs'
+               | None => None            (* Go: index out of range *)
+               end
+      end
+  end.
+
+(* the fixed-size part of a node record *)
+Definition dec_header (ver : N) (bs : bytes) : option (nat * snode * N * bytes) :=
+  match uvarint_dec bs with None => None | Some (depth, bs1) =>
+  match uvarint_dec bs1 with None => None | Some (tv, bs2) =>
+  match uvarint_dec bs2 with None => None | Some (smp, bs3) =>
+  match (if (2 <=? ver)%N then uvarint_dec bs3 else Some (0%N, bs3)) with None => None | Some (wr, bs4) =>
+  match uvarint_dec bs4 with None => None | Some (pv, bs5) =>
+  match uvarint_dec bs5 with None => None | Some (clen, bs6) =>
+  match time_dec tv with None => None | Some t =>
+    let lvl := N.to_nat depth in
+    Some (lvl, SNode t (pv =? 1)%N smp wr (match lvl with O => [] | S _ => repeat None 10 end), clen, bs6)
+  end end end end end end end.
+
 (* one node and its subtree: (level, node, rest).  [ver] is the format version read from the stream *)
 Fixpoint dec_node (fuel : nat) (ver : N) (bs : bytes) {struct fuel} : option (nat * snode * bytes) :=
   match fuel with
   | O => None
   | S f =>
-      match uvarint_dec bs with None => None | Some (depth, bs1) =>
-      match uvarint_dec bs1 with None => None | Some (tv, bs2) =>
-      match uvarint_dec bs2 with None => None | Some (smp, bs3) =>
-      match (if (2 <=? ver)%N then uvarint_dec bs3 else Some (0%N, bs3)) with None => None | Some (wr, bs4) =>
-      match uvarint_dec bs4 with None => None | Some (pv, bs5) =>
-      match uvarint_dec bs5 with None => None | Some (clen, bs6) =>
-      match time_dec tv with None => None | Some t =>
-        let lvl := N.to_nat depth in
-        let node := SNode t (pv =? 1)%N smp wr (match lvl with O => [] | S _ => repeat None 10 end) in
-        (* every child needs at least six bytes: a larger count runs into EOF in Go *)
-        if (Nlen bs6 <? clen)%N then None
-        else
-          (fix children (k : nat) (parent : snode) (bs : bytes) {struct k} : option (nat * snode * bytes) :=
-             match k with
-             | O => Some (lvl, parent, bs)
-             | S k' =>
-                 match dec_node f ver bs with
-                 | None => None
-                 | Some (cl, c, bs') =>
-                     if negb (Nat.eqb (S cl) lvl) then None
-                     else match sn_replace cl parent c with
-                          | Some parent' => children k' parent' bs'
-                          | None => None            (* Go: index out of range *)
-                          end
-                 end
-             end) (N.to_nat clen) node bs6
-      end end end end end end end
+      match dec_header ver bs with
+      | None => None
+      | Some (lvl, node, clen, bs6) =>
+          (* every child needs at least six bytes: a larger count runs into EOF in Go *)
+          if (Nlen bs6 <? clen)%N then None
+          else dec_children (dec_node f ver) lvl (N.to_nat clen) node bs6
+      end
   end.
 
 Section Codec.
